@@ -434,7 +434,8 @@ void svt_av1_scan_tiles(EbDecHandle *dec_handle_ptr, TilesInfo *tiles_info, ObuH
         parse_tile_data[tile_num].data_end  = bs->buf_max;
         parse_tile_data[tile_num].tile_size = tile_size;
 
-        dec_bits_init(bs, (get_bitsteam_buf(bs) + tile_size), obu_header->payload_size);
+        if (tile_num != tg_end) /* nothing follows the last tile: do not prefetch past the OBU */
+            dec_bits_init(bs, (get_bitsteam_buf(bs) + tile_size), obu_header->payload_size);
     }
 }
 
